@@ -3,6 +3,7 @@
 package props
 
 import (
+	"cmp"
 	"fmt"
 	"math"
 	"math/rand/v2"
@@ -26,9 +27,9 @@ func init() {
 				Procs:    16,
 				Rule: "LIS/LNDS: every sequence over alphabet 4 x length <= 8, alphabet 3 x length <= 11 and alphabet 2 x length <= 13 (exhaustive), each under four comparators (natural -1/0/+1, reversed, a 'wide' comparator returning the difference a-b, and one returning MinInt/MaxInt); a structured family of two interleaved ascending runs with run lengths 1..70 and 2^k-1..2^k+1 up to 1024, plus random sequences up to 1500 (5000 thorough) with heavy duplication; " +
 					"LCS/LCSFunc: every pair over alphabet 2 x length <= 7 and alphabet 3 x length <= 5 (exhaustive) plus random pairs up to 300 of very different lengths. " +
-					"Checks: returned elements identify strictly increasing positions of the input (for LCS: of one input, and their values form a subsequence of the other), strict / non-strict order under the comparator used, length == quadratic reference, inputs unmodified; 8 goroutines call LIS/LNDS/LCS concurrently on unshared inputs (plain and under -race), a comparison callback that itself calls LIS (re-entrancy), and LCS instantiated with interface-typed elements. " +
+					"Checks: returned elements identify strictly increasing positions of the input (for LCS: of one input, and their values form a subsequence of the other), strict / non-strict order under the comparator used, length == quadratic reference, inputs unmodified; 8 goroutines call LIS/LNDS/LCS concurrently on unshared inputs (plain and under -race), a comparison callback that itself calls LIS (re-entrancy), and LCS instantiated with interface-typed elements; interleaved with all of it, calls that are abandoned half-way (the comparison function panics after m calls and the caller recovers) so that every verified call also runs right after a failed one. " +
 					"distinct = the input (enumerated without repetition; random by hash); non-trivial = the input has a repeated value (ties)",
-				Required:     []string{"lis_inputs", "lnds_inputs", "lcs_pairs", "wide_comparator_inputs", "reversed_comparator_inputs", "lcs_unequal_length_pairs", "structured_two_run_inputs", "concurrent_calls", "reentrant_calls", "interface_element_cases"},
+				Required:     []string{"lis_inputs", "lnds_inputs", "lcs_pairs", "wide_comparator_inputs", "reversed_comparator_inputs", "lcs_unequal_length_pairs", "structured_two_run_inputs", "concurrent_calls", "reentrant_calls", "interface_element_cases", "abandoned_calls"},
 				Exhaustive:   true,
 				Assumptions:  []string{"quadratic DP references for LIS/LNDS/LCS lengths"},
 				CoverPkgs:    []string{"github.com/creachadair/mds/slice"},
@@ -511,6 +512,9 @@ func runC12(c *fw.Ctx) {
 			}
 			var cnt, nt int64
 			for i := bi * bundle; i < min(n, (bi+1)*bundle); i++ {
+				if i%64 == 0 {
+					c12abandon(c, i/64+bi)
+				}
 				vs := c12seqOf(i, sp.a)
 				for ci := range c12cmps {
 					c12seq(c, vs, ci)
@@ -595,6 +599,7 @@ func runC12(c *fw.Ctx) {
 				continue
 			}
 			a := c12seqOf(ai, sp.a)
+			c12abandon(c, ai)
 			var nt, uneq int64
 			for bi := 0; bi < n; bi++ {
 				b := c12seqOf(bi, sp.a)
@@ -637,6 +642,7 @@ func runC12(c *fw.Ctx) {
 		n := r.IntN(c.Pick(1500, 5000))
 		alpha := []int{2, 3, 10, 100, 1 << 30}[r.IntN(5)]
 		vs := c12random(r, n, alpha)
+		c12abandon(c, k+17*c.Block)
 		ci := r.IntN(len(c12cmps))
 		c12seq(c, vs, ci)
 		c.Add("lis_inputs", 1)
@@ -693,4 +699,45 @@ func c12random(r *rand.Rand, n, alpha int) []int {
 	}
 	_ = fmt.Sprint
 	return vs
+}
+
+// c12abandon makes calls that the caller abandons half-way: the comparison
+// function panics after m calls and the panic is recovered here. Nothing is
+// asserted about the abandoned call; the point is that the well-formed calls
+// verified afterwards (same goroutine, same process) must be unaffected by
+// whatever the package keeps between calls.
+func c12abandon(c *fw.Ctx, seed int) {
+	n := 3 + seed%41
+	ints := make([]int, n)
+	pes := make([]pe, n)
+	for i := range ints {
+		v := 10 + i // mostly ascending (long tails), with dips
+		if (i+seed)%7 == 6 {
+			v = i / 2
+		}
+		ints[i] = v
+		pes[i] = pe{V: v, Pos: i}
+	}
+	m := 1 + seed%(2*n)
+	var cnt int
+	tick := func() {
+		cnt++
+		if cnt > m {
+			panic("abandoned by the comparison function")
+		}
+	}
+	calls := []func(){
+		func() { slice.LNDSFunc(pes, func(a, b pe) int { tick(); return cmp.Compare(a.V, b.V) }) },
+		func() { slice.LISFunc(pes, func(a, b pe) int { tick(); return cmp.Compare(a.V, b.V) }) },
+		func() { slice.LNDSFunc(ints, func(a, b int) int { tick(); return cmp.Compare(a, b) }) },
+		func() { slice.LISFunc(ints, func(a, b int) int { tick(); return cmp.Compare(a, b) }) },
+		func() { slice.LCSFunc(ints, ints, func(a, b int) bool { tick(); return a == b }) },
+		func() { slice.LCSFunc(pes, pes, func(a, b pe) bool { tick(); return a.V == b.V }) },
+	}
+	for _, f := range calls {
+		cnt = 0
+		if p, _ := fw.Panics(f); p {
+			c.Add("abandoned_calls", 1)
+		}
+	}
 }
